@@ -6,12 +6,21 @@ sys.path.insert(0, HERE)
 import config, manifest_meta as mm
 VERIF = os.path.dirname(HERE)
 ALL = ["C%02d" % i for i in range(1, 21)]
+def _engines():
+    es = {e["name"]: dict(e) for e in mm.ENGINES}
+    for n, e in config.ENGINES.items():
+        es[n] = dict(e)
+    for e in es.values():
+        if e["name"] != "lean-model":
+            e["serves_properties"] = sorted(p for p in config.PROPS if config.META[p]["engine"] == e["name"] or e["name"] in [r[0] for t in config.PROPS[p]["runs"].values() for r in t])
+    es["lean-model"]["serves_properties"] = sorted(config.PROPS)
+    return list(es.values())
 checks = []
 for pid in ALL:
     if pid not in config.PROPS:
         continue
     c = config.PROPS[pid]
-    meta = mm.META[pid]
+    meta = config.META[pid]
     checks.append({
         "property_id": pid,
         "quick_cmd": "python3 tools/check.py %s --tier quick" % pid,
@@ -28,7 +37,7 @@ man = {
     "version": 1,
     "setup_cmd": "cd /verif/lean && lake build PopsModel popsdriver",
     "hooks": mm.HOOKS,
-    "engines": mm.ENGINES,
+    "engines": _engines(),
     "checks": checks,
     "notes": mm.NOTES,
     "not_applicable": na,
